@@ -83,7 +83,27 @@ type vxGhostRound struct {
 
 var vxGhostScript []vxGhostRound
 
+// vxInner, when set, cuts one level deeper: verifyAndSyncWithExecutor is the real
+// code (its WAL-size bookkeeping included), verifyWithExecutor answers with
+// vxInner.info and DB.sync with vxInner.res.
+type vxInnerScript struct {
+	info syncInfo
+	res  syncResult
+}
+
+var vxInner *vxInnerScript
+
+func (db *DB) verifyWithExecutor(ctx context.Context, exec *syncExecutor) (syncInfo, error) {
+	if vxInner != nil {
+		return vxInner.info, nil
+	}
+	return db.verifyWithExecutorReal(ctx, exec)
+}
+
 func (db *DB) verifyAndSyncWithExecutor(ctx context.Context, checkpointing bool, exec *syncExecutor, maxSyncWALBytes int64) (syncResult, error) {
+	if vxInner != nil {
+		return db.verifyAndSyncWithExecutorReal(ctx, checkpointing, exec, maxSyncWALBytes)
+	}
 	if len(vxGhostScript) > 0 {
 		r := vxGhostScript[0]
 		vxGhostScript = vxGhostScript[1:]
@@ -134,6 +154,9 @@ func (db *DB) verifyAndSyncWithExecutor(ctx context.Context, checkpointing bool,
 }
 
 func (db *DB) sync(ctx context.Context, checkpointing bool, exec *syncExecutor, info syncInfo, maxSyncWALBytes int64) (syncResult, error) {
+	if vxInner != nil {
+		return vxInner.res, nil
+	}
 	if !vxSyncStub {
 		return db.syncReal(ctx, checkpointing, exec, info, maxSyncWALBytes)
 	}
